@@ -433,4 +433,31 @@ def PSleep.run (s : PSleep) : List SleepOp → Option PSleep
     | none => none
     | some s' => s'.run os
 
+/-! ### `StopwatchStart` on its own (stopwatch.rs): pause / resume with the illegal transitions, time passing -/
+
+inductive WatchOp where
+  | advance (d : Nat)
+  | pause
+  | resume
+  deriving DecidableEq, Repr
+
+/-- `none` = the illegal state transition (`pause()` while paused, `resume()` while running: a panic) -/
+def Watch.apply (w : Watch) : WatchOp → Option Watch
+  | .advance d => some (w.tick d)
+  | .pause => if w.paused then none else some { w with paused := true }
+  | .resume => if w.paused then some { w with paused := false } else none
+
+def Watch.run (w : Watch) : List WatchOp → Option Watch
+  | [] => some w
+  | o :: os => match w.apply o with
+    | none => none
+    | some w' => w'.run os
+
+/-- the time that passes while the watch is running in a legal operation sequence -/
+def runningTime : Bool → List WatchOp → Nat
+  | _, [] => 0
+  | paused, .advance d :: os => (if paused then 0 else d) + runningTime paused os
+  | _, .pause :: os => runningTime true os
+  | _, .resume :: os => runningTime false os
+
 end NextestModel.Unit
